@@ -1,4 +1,5 @@
 import LekkerVerif.Proofs.WiringDetach
+import LekkerVerif.Proofs.NamesSpec
 
 /-! # C16 — wiring calls are validated and atomic
 
@@ -84,3 +85,43 @@ example : step demo (.connect (1, 0) (0, 1)) = (demo, .ok) := by decide
 example : (step demo (.add 1)).2 = .valueError := by decide
 
 end Wiring
+
+
+/-! ### pin names are never confused -/
+
+namespace Names
+
+/-- **two distinct pins whose printable names coincide are rejected** by `update_pins` (model construction, and every
+renaming, which ends in `update_pins`) -/
+theorem C16_alike_rejected (pins : List PinN) (p q : PinN) (hp : p ∈ pins) (hq : q ∈ pins) (hne : p ≠ q)
+    (hname : p.name = q.name) : buildTable pins = none := buildTable_rejects pins p q hp hq hne hname
+
+/-- such pins exist: `Pin('a','TE')` and `Pin('a_TE')` are different pins that print alike -/
+theorem C16_alike_exists : (⟨"a", some "TE"⟩ : PinN) ≠ ⟨"a_TE", none⟩ ∧ (⟨"a", some "TE"⟩ : PinN).name = (⟨"a_TE", none⟩ : PinN).name := by
+  decide
+
+/-- a pin set is accepted exactly when no two of its pins print alike, and an accepted table resolves a name to a pin
+exactly when that pin is present and prints so: never to another pin -/
+theorem C16_resolution_exact (pins : List PinN) :
+    (buildTable pins ≠ none ↔ (pins.map PinN.name).Nodup) ∧
+    ∀ t, buildTable pins = some t → ∀ n p, resolve t n = some p ↔ (p ∈ pins ∧ p.name = n) := by
+  refine ⟨?_, fun t h n p => resolve_iff pins t h n p⟩
+  rw [buildTable_spec]
+  by_cases nd : (pins.map PinN.name).Nodup <;> simp [nd]
+
+/-- **a model whose pins were renamed is addressable by the new names**: after an accepted `pin_mapping` every renamed
+pin is found under its new printable name (and under no other) -/
+theorem C16_renamed_addressable (ρ : List (PinN × PinN)) (pins : List PinN) (t : List (String × PinN))
+    (h : buildTable (renamePins ρ pins) = some t) (old new : PinN) (hold : old ∈ pins)
+    (hρ : ρ.find? (·.1 == old) = some (old, new)) : resolve t new.name = some new := by
+  apply (resolve_iff _ t h new.name new).2
+  refine ⟨?_, rfl⟩
+  unfold renamePins
+  exact List.mem_map.2 ⟨old, hold, by simp [hρ]⟩
+
+/-- the renaming is simultaneous: a swap exchanges the two pins (the history that lost a pin on the unrepaired code) -/
+theorem C16_rename_swap :
+    renamePins [(⟨"a", none⟩, ⟨"b", none⟩), (⟨"b", none⟩, ⟨"a", none⟩)] [⟨"a", none⟩, ⟨"b", none⟩, ⟨"c", none⟩]
+      = [⟨"b", none⟩, ⟨"a", none⟩, ⟨"c", none⟩] := by decide
+
+end Names
